@@ -1,6 +1,8 @@
 #!/venv/bin/python
-"""Applies each mutant patch to /repo's working tree, runs the quick check of
-the property named by the file's prefix, reverts.  A mutant counts only if the
+"""Applies each mutant patch to a scratch worktree of /repo (/var/tmp/fiddle-sens,
+selected for the checks through FSIM_REPO, so /repo itself is never touched and
+background runs are not disturbed), runs the quick check of the property named
+by the file's prefix, reverts.  A mutant counts only if the
 pinned pytest baseline still passes with it (--baseline to verify, slow).
 
 usage: selftest/sensitivity.py [--baseline] [--budget S] [name-substring ...]
@@ -8,6 +10,7 @@ usage: selftest/sensitivity.py [--baseline] [--budget S] [name-substring ...]
 import glob, os, subprocess, sys, time, json
 
 VERIF = os.path.dirname(os.path.dirname(os.path.abspath(__file__)))
+WT = '/var/tmp/fiddle-sens'
 
 
 def sh(cmd, **kw):
@@ -26,8 +29,31 @@ def main():
   files = sorted(f for d in dirs for f in glob.glob(d))
   if pats:
     files = [f for f in files if any(p in f for p in pats)]
-  assert sh('git -C /repo status --porcelain').stdout.strip() == '', '/repo dirty'
+  if not os.path.isdir(WT):
+    r = sh(f'git -C /repo worktree add -q --detach {WT} HEAD')
+    assert r.returncode == 0, r.stderr
+  sh(f'git -C {WT} checkout -q --detach $(git -C /repo rev-parse HEAD)')
+  sh(f'git -C {WT} checkout -- .')
+  assert sh(f'git -C {WT} status --porcelain').stdout.strip() == '', 'scratch worktree dirty'
   rows = []
+  # evidence files are rewritten by every check run; runs against mutants must
+  # not leave theirs behind
+  import shutil, tempfile
+  keep = tempfile.mkdtemp(dir='/var/tmp')
+  shutil.copytree(os.path.join(VERIF, 'evidence'), os.path.join(keep, 'evidence'))
+  try:
+    _run_all(files, budget, baseline, rows)
+  finally:
+    shutil.rmtree(os.path.join(VERIF, 'evidence'), ignore_errors=True)
+    shutil.copytree(os.path.join(keep, 'evidence'), os.path.join(VERIF, 'evidence'))
+    shutil.rmtree(keep, ignore_errors=True)
+  for row in rows:
+    print(' | '.join(str(x) for x in row))
+  missed = [r for r in rows if 'MISSED' in r or 'HARNESS-ERROR' in r]
+  print(f'{len(rows)} rows, {len(missed)} missed/errors')
+
+
+def _run_all(files, budget, baseline, rows):
   for f in files:
     if f.endswith('patch.diff'):
       meta = json.load(open(os.path.join(os.path.dirname(f), 'meta.json')))
@@ -36,27 +62,23 @@ def main():
     else:
       name = os.path.basename(f)[:-6]
       props = name.split('-')[0].split('+')
-    r = sh(f'git -C /repo apply {f}')
+    r = sh(f'git -C {WT} apply {f}')
     if r.returncode:
       rows.append((name, 'PATCH-FAILED', r.stderr.strip()[:100]))
       continue
     try:
       for prop in props:
         t = time.time()
-        r = sh(f'./check {prop} --budget {budget}', cwd=VERIF)
+        r = sh(f'./check {prop} --budget {budget}', cwd=VERIF, env=dict(os.environ, FSIM_REPO=WT))
         caught = 'VIOLATION property=' + prop in r.stdout
         status = 'caught' if caught else ('HARNESS-ERROR' if r.returncode == 2 else 'MISSED')
         first = next((l for l in r.stdout.splitlines() if l.startswith(('VIOLATION', 'HARNESS'))), '')
         rows.append((name, prop, status, f'{time.time() - t:.0f}s', first[:110]))
       if baseline:
-        r = sh(os.path.join(VERIF, 'tools', 'baseline_check.py'))
+        r = sh(os.path.join(VERIF, 'tools', 'baseline_check.py') + ' ' + WT)
         rows.append((name, 'baseline', 'passes' if r.returncode == 0 else 'FAILS: ' + r.stdout.strip()[-200:]))
     finally:
-      sh('git -C /repo checkout -- .')
-  for row in rows:
-    print(' | '.join(str(x) for x in row))
-  missed = [r for r in rows if 'MISSED' in r or 'HARNESS-ERROR' in r]
-  print(f'{len(rows)} rows, {len(missed)} missed/errors')
+      sh(f'git -C {WT} checkout -- .')
 
 
 if __name__ == '__main__':
